@@ -2,6 +2,7 @@
    directories `<outroot>/c<i>/` holding the XML files, `meta.txt` and the reference observation `ref.obs`. -/
 import ZeepVerif.Spec.Gen
 import ZeepVerif.Spec.Instance
+import ZeepVerif.Spec.ToX
 import ZeepVerif.Driver.Util
 
 namespace ZeepVerif.Driver.SpecGen
@@ -60,6 +61,18 @@ def writeCase (root : String) (idx : Nat) (seed : Nat) (cyclic small : Bool) (ws
       s!"INST\t{k}\t{i.uri}\t{i.typeName}\tvalid={if i.valid then 1 else 0}\t{ZeepVerif.Driver.hex i.xml}\n")
   IO.FS.writeFile s!"{dir}/inst.txt" (instLines 0 3 1)
   IO.FS.writeFile s!"{dir}/inst7.txt" (instLines 60 4 2)
+  -- the XML trees the theorems speak about (Spec.toX), to be compared with the real parse of the printed text
+  let shapeLines := s.files.flatMap fun f => f.comps.filterMap fun c =>
+    let content (n : String) (d : ComplexDef) : Option String := d.content.map fun (o, ps) =>
+      let fname := match s.wsdl with
+        | some w => if (s.files[w.schemaFile]?).map (fun (g : SchemaFile) => g.fileName) == some f.fileName then w.fileName else f.fileName
+        | none => f.fileName
+      s!"SHAPE\t{fname}\t{n}\t{(XNode.elem "sequence" (occAttrs o) [] none (particlesToX f ps)).shape}"
+    match c with
+    | .complexType n d _ => content n d
+    | .elementAnon n d => content n d
+    | _ => none
+  IO.FS.writeFile s!"{dir}/shapes.txt" (String.join (shapeLines.map (· ++ "\n")))
   IO.FS.writeFile s!"{dir}/ref.obs" (String.join ((Ref.structLines s ++ Ref.wsdlLines s).map (· ++ "\n")))
 
 def main (seed count : Nat) (root : String) (cyclic : Bool := false) (small : Bool := false) (wsdl : Bool := false) : IO UInt32 := do
